@@ -190,40 +190,51 @@ def account(ctx, trace):
     ctx.stage("model-predictions-executed-on-real-code", **pred)
 
 
-def dedupe_failures(ctx, trace):
-    """vlib.validate_traces re-runs TLC once per violating scenario. Of the scenarios whose real run failed
-    (Panic / Timeout / control pod not bound) only the first per (failure kind, input signature) is kept for
-    TLC; the others would only repeat a signature that is already reported."""
+def validate(ctx, trace):
+    """one TLC run with -continue over the whole trace: every violated invariant is reported by TLC with its
+    behaviour; each (invariant, input signature) becomes one ctx.violation (vlib.validate_traces would re-run
+    TLC once per violating scenario). D_ failures are specification drift."""
     evs = vlib.read_ndjson(trace)
     spans = vlib.scenario_index(evs)
-    seen, kept, dropped = set(), [], 0
-    for (a, b) in spans:
+    d = vlib.prepare_spec_dir(ctx, "tv")
+    with open(os.path.join(d, "trace.ndjson"), "w") as f:
+        for e in evs:
+            f.write(json.dumps(e) + "\n")
+    mod, cfg = vlib.write_model(d, TRACE, "Tot_tv", DUMMY, spec="TraceSpec", invariants=trace_invariants())
+    r = vlib.tlc(ctx, d, mod, cfg, workers=min(vlib.NCPU, 8), timeout=3000, heap="8g", continue_=True)
+    chunks = re.split(r"^Error: Invariant (\w+) is violated\.?$", r.out, flags=re.M)
+    viols = [(chunks[i], chunks[i + 1]) for i in range(1, len(chunks), 2)]
+    if r.kind == "error" or (not viols and not r.ok):
+        raise vlib.Infra("TLC failed on the trace:\n" + vlib.tail_errors(r.out))
+    ctx.add_tlc(r)
+    start_of = {a: (a, b) for (a, b) in spans}
+    seen, drift = {}, []
+    for inv, body in viols:
+        m = re.search(r"^/\\ l0 = (\d+)", body, re.M)
+        if not m or int(m.group(1)) not in start_of:
+            raise vlib.Infra("cannot locate the scenario of a counterexample:\n" + body[:1500])
+        a, b = start_of[int(m.group(1))]
         sc = evs[a - 1:b]
-        kinds = {e["ev"] for e in sc}
-        fail = None
-        if "Timeout" in kinds:
-            fail = "Timeout"
-        elif "Panic" in kinds:
-            fail = "Panic"
-        elif not any(e["ev"] == "Bind" and e["pod"] == "cpod" for e in sc):
-            fail = "NoBind"
-        if fail:
-            k = (fail, sc[0]["sig"])
-            if k in seen:
-                dropped += 1
-                continue
-            seen.add(k)
-        kept.append(sc)
-    if dropped:
-        out = trace + ".dedup"
-        with open(out, "w") as f:
-            for sc in kept:
-                for e in sc:
-                    f.write(json.dumps(e) + "\n")
-        ctx.stage("dedupe-failing-scenarios", dropped=dropped, failing_signatures=sorted("%s %s" % k for k in seen)[:30])
-        ctx.cov["traces_validated_against_impl"] += dropped   # they were executed and classified, not re-judged by TLC
-        return out
-    return trace
+        if inv.startswith("D_"):
+            drift.append((inv, sc))
+            continue
+        key = (inv, sc[0]["sig"])
+        seen[key] = seen.get(key, 0) + 1
+        if seen[key] > 1:
+            continue
+        what = [e for e in sc if e["ev"] in ("Panic", "Timeout")]
+        text = "TLC: invariant %s violated on the real run of scenario %s (%s)\nevents: %s\n%s" % (
+            inv, sc[0]["id"], sc[0]["sig"], " ".join(e["ev"] for e in sc[1:]), json.dumps(what[0]) if what else "")
+        ctx.violation("%s %s" % (inv, sc[0]["sig"]), text, {"module": TRACE, "invariant": inv, "trace": sc})
+    if seen:
+        ctx.stage("violating-scenarios", **{"%s %s" % k: v for k, v in sorted(seen.items())})
+    if drift and not ctx.violations and not ctx.known:
+        inv, sc = drift[0]
+        raise vlib.Infra("specification drift: %s fails on %d scenario(s), first: %s" % (inv, len(drift), json.dumps(sc)[:2500]))
+    if drift:
+        ctx.stage("drift-monitor-failures", count=len(drift), first="%s %s" % (drift[0][0], drift[0][1][0]["sig"]))
+    ctx.cov["traces_validated_against_impl"] += len(spans)
+    ctx.cov["trace_events_validated"] += len(evs) - len(spans)
 
 
 def run(ctx):
@@ -257,9 +268,7 @@ def run(ctx):
         raise vlib.Infra("the model has a lasso but no exported scenario is predicted to hang")
     trace = run_real(ctx, binary, scens + mixed, "all")
     account(ctx, trace)
-    trace = dedupe_failures(ctx, trace)
-    vlib.validate_traces(ctx, TRACE, trace, trace_invariants(), "C10_", constants=DUMMY, timeout=3000, heap="8g",
-                         workers=min(vlib.NCPU, 8))
+    validate(ctx, trace)
     ctx.cov["exhaustive"] = True
 
 
@@ -268,4 +277,4 @@ def replay(ctx, obj):
     sc = dict(obj["replay"]["trace"][0])
     sc.pop("ev", None)
     trace = run_real(ctx, binary, [sc], "replay")
-    vlib.validate_traces(ctx, TRACE, trace, trace_invariants(), "C10_", constants=DUMMY)
+    validate(ctx, trace)
